@@ -878,6 +878,17 @@ def rule_codec(prog):
     out.add("LSCodec::decode", "content_end = content_start + content_length", ok, c.loc(dec["sp"]), "")
     lits = [n["lit"].get("v") for n in hir.nodes_deep(prog, dec["body"]) if n.get("k") == "Lit" and n["lit"]["k"] == "str"]
     out.add("LSCodec::decode", "length is read from the `Content-Length` header", "Content-Length" in lits, c.loc(dec["sp"]), "string literals: %s" % lits)
+    # header field names are case-insensitive (the base protocol's header part follows HTTP semantics)
+    exact = None
+    for bn in hir.nodes_deep(prog, dec["body"], 1, crate=c):
+        if bn.get("k") == "Binary" and bn["op"] in ("==", "!=") and any(
+                y.get("k") == "Lit" and y["lit"].get("k") == "str" and str(y["lit"].get("v")).lower() == "content-length" for y in hir.nodes(bn)):
+            exact = bn
+    insens = any(x.get("k") == "MethodCall" and x["m"] in ("eq_ignore_ascii_case", "to_ascii_lowercase", "to_lowercase", "to_ascii_uppercase")
+                 for x in hir.nodes_deep(prog, dec["body"], 1, crate=c))
+    out.add("LSCodec::decode", "the Content-Length header is recognised in any case", insens and exact is None, c.loc((exact or dec)["sp"]),
+            "the header name is compared with `==`: `content-length: 52` is rejected as invalid headers, the session ends with status 1 and the "
+            "request is never answered", ("hdrcase",))
     # encode: the number written is String::len() (bytes) of the very string that is written
     length_src = None
     content = None
@@ -1433,6 +1444,34 @@ def rule_text_sync(prog):
                                                                           "sort_unstable_by", "sort_unstable_by_key", "sort_by_cached_key")]
     out.add("document::to_text_changes", "content changes are converted in the order they were sent", not reord,
             c.loc((reord[0] if reord else b)["sp"]), "each change of a batch is relative to the text after its predecessors", ("batch",))
+    # ordered: the byte range built from a client range (as_index_range) never ends in front of its start - the client's range may
+    # (a malformed `end < start`), and `String::replace_range` panics on an inverted range, which ends the broker task
+    air = cv.get("as_index_range")
+    if air is None:
+        out.missing("position conversion function as_index_range")
+    else:
+        ordered = None
+        for st in hir.nodes(air["body"], "Struct"):
+            if not (st.get("adt") or "").startswith("core::ops::range::Range"):
+                continue
+            f_ = {x["name"]: x["e"] for x in st["fields"]}
+            if "start" not in f_ or "end" not in f_:
+                continue
+            sp_ = place(hir.strip_ref(f_["start"]))
+            en = hir.strip(f_["end"])
+            ordered = False
+            if en.get("k") == "MethodCall" and en["m"] == "max" and en["args"] and sp_ in (place(hir.strip_ref(en["args"][0])), place(hir.strip_ref(en["recv"]))):
+                ordered = True
+            if en.get("k") == "Call" and last(hir.callee(en) or "") == "max" and sp_ in [place(hir.strip_ref(a_)) for a_ in en["args"]]:
+                ordered = True
+        if ordered is False:
+            # or an explicit guard comparing the two bounds somewhere in the function
+            for bn in hir.nodes(air["body"], "Binary"):
+                if bn["op"] in ("<", "<=", ">", ">=") and {"start", "end"} <= {(place(hir.strip_ref(bn["l"])) or "").split("#")[0], (place(hir.strip_ref(bn["r"])) or "").split("#")[0]}:
+                    ordered = True
+        out.add("document::as_index_range", "the byte range of a change never ends in front of its start", ordered, c.loc(air["sp"]),
+                "`start..end` is built from two independently converted positions: a client range with `end < start` yields an inverted "
+                "range, `replace_range` panics in the broker task and every later request stays unanswered", ("clamp", "ordered"))
     # UTF16: column counters in as_position / get_insertion_index (and private helpers they share)
     for fn in ("as_position", "get_insertion_index"):
         fb = cv.get(fn)
@@ -1516,6 +1555,25 @@ def rule_text_sync(prog):
                     "the column of a Position is counted in `char`s / bytes: LSP columns count UTF-16 code units, so every position behind a "
                     "character outside the BMP (or, for bytes, outside ASCII) in the same line is off", ("utf16",))
             continue
+        # what ends a line: the counter of the line is advanced (and the column reset) at `\n` *and* at a carriage return that is not part
+        # of `\r\n` - LSP counts all three line endings, and the two converters must agree
+        eol_chars = set()
+        eol_site = None
+        for bb in bodies_:
+            for iff in hir.nodes(bb["body"], "If"):
+                resets = any(a_.get("k") == "Assign" and hir.lit_value(hir.strip(a_["r"])) in ("0", 0) for a_ in hir.nodes(iff["then"])) or \
+                    any(a_.get("k") == "AssignOp" and a_["op"] == "+=" and hir.lit_value(hir.strip(a_["r"])) in ("1", 1) and
+                        "line" in (place(a_["l"]) or "") for a_ in hir.nodes(iff["then"]))
+                if not resets:
+                    continue
+                for l_ in hir.nodes(iff["cond"], "Lit"):
+                    if l_["lit"].get("k") == "char":
+                        eol_chars.add(l_["lit"].get("v"))
+                eol_site = eol_site or iff
+        if eol_site is not None:
+            out.add("document::" + fn, "a line ends at a line feed and at a carriage return on its own", {"\n", "\r"} <= eol_chars,
+                    c.loc(eol_site["sp"]), "the line counter advances at %s only: in a document with lone carriage returns (one of LSP's three line "
+                    "endings) every position behind the first one addresses the wrong line" % sorted(eol_chars), ("utf16", "eol"))
         for bb, n in incs_all:
             utf16 = any(m["m"] in ("len_utf16", "encode_utf16") for m in hir.nodes(n["r"], "MethodCall"))
             one = hir.lit_value(n["r"]) == "1"
